@@ -6,6 +6,7 @@ From Coq Require Import ZArith List Bool.
 Import ListNotations.
 Require Import SZV.Model.Quant SZV.Model.QuantInt SZV.Proofs.QuantInt_proofs.
 Require Import SZV.Model.Consistency SZV.Proofs.Consistency_proofs.
+Require Import SZV.Base.Bytes SZV.Gen.SrcIntBytes SZV.Proofs.IntBytes_proofs.
 Local Open Scope Z_scope.
 
 (* the decoder reproduces the encoder's reconstruction: every array, rank 1..3 (4-D = independent
@@ -54,3 +55,15 @@ Example C03_ex :
   let c := {| e := 2; cap := 32; shape := [2; 3]; ty := ity_of 7 |} in
   ctx_ok c /\ enc_int c [] [10; 13; 17; 11; 15; 100] = ([0; 17; 16; 16; 16; 0], [10; 100], [10; 14; 18; 10; 14; 100]).
 Proof. split; [repeat split; vm_compute; congruence|vm_compute; reflexivity]. Qed.
+
+(* exact ("unpredictable") values are stored as their offset from the array's minimum in the width computeByteSizePerIntValue (translated from
+   the source on every run) chooses for the value range r = max - min: every value of the array comes back exactly, for every range *)
+Theorem C03_exact_value_roundtrip : forall mn r v, 0 <= r < 2 ^ 63 -> mn <= v <= mn + r ->
+  mn + from_be (to_be (exact_width r) (v - mn)) = v.
+Proof. exact exact_value_roundtrip. Qed.
+Print Assumptions C03_exact_value_roundtrip.
+
+Example C03_exact_width_boundaries : c_computeByteSizePerIntValue 255 = 1 /\ c_computeByteSizePerIntValue 256 = 2 /\
+  c_computeByteSizePerIntValue 65535 = 2 /\ c_computeByteSizePerIntValue 65536 = 4 /\
+  c_computeByteSizePerIntValue 4294967295 = 4 /\ c_computeByteSizePerIntValue 4294967296 = 8.
+Proof. exact exact_width_tight. Qed.
